@@ -9,6 +9,8 @@ import (
 	"math/big"
 	"sort"
 	"strings"
+	"sync"
+	"sync/atomic"
 
 	"go.sia.tech/core/types"
 	"go.sia.tech/coreutils/wallet"
@@ -191,6 +193,42 @@ func runC20(r *mon.Run, replay string) {
 		checkEntropy("random", e)
 	}
 	r.Count("random_entropies", nRandom)
+
+	// extreme phrase lengths: 11 words from the k shortest / longest list words,
+	// and among the 128 possible last words the shortest / longest one
+	byLen := append([]string(nil), words...)
+	sort.SliceStable(byLen, func(i, j int) bool { return len(byLen[i]) < len(byLen[j]) })
+	minLen, maxLen := 1<<30, 0
+	for _, kind := range []string{"short-words", "long-words"} {
+		for i := 0; i < r.Pick(300, 5000); i++ {
+			pool := byLen[:100]
+			if kind == "long-words" {
+				pool = byLen[len(byLen)-100:]
+			}
+			// 121 bits from 11 words, then the 7 remaining entropy bits
+			bits := new(big.Int)
+			for j := 0; j < 11; j++ {
+				bits.Lsh(bits, 11)
+				bits.Or(bits, big.NewInt(int64(index[pool[rng.IntN(len(pool))]])))
+			}
+			var best [16]byte
+			bestLen := -1
+			for tail := 0; tail < 128; tail++ {
+				e := new(big.Int).Lsh(bits, 7)
+				e.Or(e, big.NewInt(int64(tail)))
+				var ent [16]byte
+				e.FillBytes(ent[:])
+				l := len(strings.Join(refEncode(words, ent), " "))
+				if bestLen < 0 || (kind == "short-words" && l < bestLen) || (kind == "long-words" && l > bestLen) {
+					best, bestLen = ent, l
+				}
+			}
+			minLen, maxLen = min(minLen, bestLen), max(maxLen, bestLen)
+			checkEntropy(kind, best)
+			r.Count("extreme_length_phrases", 1)
+		}
+	}
+	r.Extra("phrase_length_range_covered", fmt.Sprintf("%d..%d characters", minLen, maxLen))
 
 	// NewSeedPhrase: always decodable, 12 list words
 	for i := 0; i < r.Pick(2000, 50000); i++ {
@@ -425,6 +463,70 @@ func runC20(r *mon.Run, replay string) {
 			r.Sample(c20Case{Kind: "key", Phrase: phrase, Index: idxs[i]})
 		}
 	}
+	// the same phrase and index derive the same key whoever else is deriving
+	// keys at the same time (8 goroutines against a sequential reference)
+	{
+		type job struct {
+			seed [32]byte
+			ent  [16]byte
+		}
+		var jobs []job
+		for i := 0; i < 4; i++ {
+			var e [16]byte
+			for j := range e {
+				e[j] = byte(rng.Uint32())
+			}
+			var sd [32]byte
+			if wallet.SeedFromPhrase(&sd, strings.Join(refEncode(words, e), " ")) != nil {
+				continue
+			}
+			jobs = append(jobs, job{sd, e})
+		}
+		rounds := r.Pick(150, 2000)
+		var wg sync.WaitGroup
+		var bad atomic.Int64
+		var firstBad atomic.Value
+		for g := 0; g < 8; g++ {
+			wg.Add(1)
+			go func(g int) {
+				defer wg.Done()
+				for round := 0; round < rounds; round++ {
+					for ji := range jobs {
+						jb := jobs[(ji+g)%len(jobs)]
+						for ix := uint64(0); ix < 32; ix++ {
+							sd := jb.seed
+							k := wallet.KeyFromSeed(&sd, ix+uint64(g%2)*1000)
+							if !bytes.Equal(k, refKey(seedOf(jb.ent), ix+uint64(g%2)*1000)) {
+								if bad.Add(1) == 1 {
+									firstBad.Store(c20Case{Kind: "key-concurrent", Entropy: hex.EncodeToString(jb.ent[:]), Index: ix + uint64(g%2)*1000})
+								}
+							}
+						}
+						if round%16 == 0 {
+							// phrase decoding and generation run alongside
+							var s2 [32]byte
+							ph := strings.Join(refEncode(words, jb.ent), " ")
+							if err := wallet.SeedFromPhrase(&s2, ph); err != nil || s2 != jb.seed {
+								bad.Add(1)
+							}
+							var s3 [32]byte
+							if wallet.SeedFromPhrase(&s3, wallet.NewSeedPhrase()) != nil {
+								bad.Add(1)
+							}
+						}
+					}
+				}
+			}(g)
+		}
+		wg.Wait()
+		r.Eval()
+		r.Count("concurrent_key_derivations", 8*rounds*len(jobs)*32)
+		if n := bad.Load(); n > 0 {
+			r.Violation("key-derivation:concurrent", fmt.Sprintf("%d derivations made while other goroutines were deriving keys differ from the reference", n), firstBad.Load(), nil)
+		}
+	}
+	r.Floor("extreme_length_phrases", 500)
+	r.Floor("concurrent_key_derivations", 100000)
 	r.Floor("phrases_accepted", 1000)
 	r.Floor("phrases_rejected", 1000)
 	r.Floor("keys_derived", 1000)
